@@ -4,6 +4,11 @@ CONSTANTS
   MaxHist = 4
   DropTables = FALSE
   SaveAll = TRUE
+  ReadBlock = 0
+  SizeSet = {1, 2, 3}
+  Rewrites = FALSE
+  Shape = "all"
+  Reuse = "off"
 INVARIANT ReadsLast
 VIEW MCView
 CHECK_DEADLOCK FALSE
